@@ -35,6 +35,23 @@ for p in sorted(root.glob("*.py")):
                     for t in (x.targets if isinstance(x, ast.Assign) else [x.target]):
                         consts += [f"const:{m}.{st.name}.{n.id}" for n in ast.walk(t) if isinstance(n, ast.Name)]
 out += consts
+# parameter names of the pinned functions: a renamed parameter is spelled with its pinned name again before analysis
+sigs = []
+for p in sorted(root.glob("*.py")):
+    tree = ast.parse(p.read_text())
+    m = p.stem
+    def sig(q, fn):
+        ps = [a.arg for a in fn.args.posonlyargs + fn.args.args + fn.args.kwonlyargs]
+        sigs.append(f"sig:{q}=" + ",".join(ps))
+    for st in tree.body:
+        if isinstance(st, ast.FunctionDef):
+            sig(f"{m}.{st.name}", st)
+        elif isinstance(st, ast.ClassDef):
+            for x in st.body:
+                if isinstance(x, ast.FunctionDef):
+                    if not any(isinstance(d, ast.Attribute) and d.attr in ("setter", "deleter") for d in x.decorator_list):
+                        sig(f"{m}.{st.name}.{x.name}", x)
+out += sigs
 dst = Path(__file__).resolve().parents[1] / "hvsa" / "baseline_functions.txt"
 dst.write_text("# functions of the pinned hvsrpy tree (names only); see hvsa/normalize.py\n" + "\n".join(sorted(set(out))) + "\n")
 print(len(out), "functions ->", dst)
